@@ -1,7 +1,7 @@
 SPECIFICATION Spec
 CONSTANTS
   Types = {"Bool", "Int32", "UInt32", "Int64", "UInt64", "Double", "String"}
-  MaxSteps = 2
+  MaxSteps = 3
 PROPERTIES ReadsLastAssigned CountFollows RejectFrame OthersKeep TypeStable
 VIEW View
 ACTION_CONSTRAINT Emit
